@@ -23,6 +23,16 @@ func VerifDir() string {
 	return "/verif"
 }
 
+// OutDir is where evidence and replays are written: VERIF_OUT if set (runs against
+// scratch worktrees with seeded changes must not overwrite the real evidence),
+// else the verification tree itself.
+func OutDir() string {
+	if d := os.Getenv("VERIF_OUT"); d != "" {
+		return d
+	}
+	return VerifDir()
+}
+
 // BinDir is where the vcheck-<variant> binaries live.
 func BinDir() string {
 	if d := os.Getenv("VERIF_BIN"); d != "" {
@@ -102,7 +112,7 @@ func RunDriver(propID, tier string, seed uint64, only *Violation) int {
 		return 2
 	}
 	start := time.Now()
-	vdir := VerifDir()
+	vdir := OutDir()
 	scratch, err := os.MkdirTemp("", "verif-"+propID+"-")
 	if err != nil {
 		fmt.Fprintln(os.Stderr, err)
